@@ -236,6 +236,7 @@ func c03Directed() []struct {
 		mk("const-prop-across-branch", decl("x", I(1)), iff(V("fb"), asg("x", I(2))), ret(V("x"))),
 		mk("const-prop-across-else", decl("x", I(1)), &gen.Stmt{K: "if", E: V("fb"), Body: []*gen.Stmt{decl("t", I(0))}, Else: []*gen.Stmt{asg("x", I(5))}}, ret(bin("+", V("x"), I(1)))),
 		mk("copy-prop-then-overwrite-source", decl("a", V("fi")), decl("b", V("a")), asg("a", I(99)), ret(bin("+", V("b"), V("a")))),
+		mk("copy-prop-reassign-then-overwrite-source", asg("fi", V("fj")), asg("fj", I(8)), ret(V("fi"))),
 		mk("cse-after-reassignment", decl("a", V("fi")), decl("p", bin("*", V("a"), V("fj"))), asg("a", I(3)), decl("q", bin("*", V("a"), V("fj"))), ret(bin("-", V("p"), V("q")))),
 		mk("licm-zero-trip-loop", decl("s", I(0)), &gen.Stmt{K: "for", Name: "it", E: V("fa"), Body: []*gen.Stmt{asg("s", bin("/", I(10), V("fi")))}}, ret(V("s"))),
 		mk("licm-while-false", decl("s", I(0)), &gen.Stmt{K: "while", Name: "w", E: bin("<", V("w"), V("fi")), Body: []*gen.Stmt{asg("w", bin("+", V("w"), I(1))), asg("s", bin("%", I(7), V("fj")))}}, ret(V("s"))),
@@ -356,7 +357,8 @@ func checkC03(tier string) {
 // c03Triggers names the shapes of the recorded optimizer findings that occur in p:
 // "identity" (an operator with a constant operand next to a non-constant one, x op x, or a
 // doubled unary), "status" (a status return), "branch-assign" (a reassignment inside an
-// if/else/switch body). A full-profile program that fails without any of them is a new defect.
+// if/else/switch body), "copy-overwrite" (a variable copied from another one that the program
+// also reassigns). A full-profile program that fails without any of them is a new defect.
 func c03Triggers(p *gen.Prog) string {
 	t := map[string]bool{}
 	var isConst func(e *gen.Expr) bool
@@ -389,6 +391,36 @@ func c03Triggers(p *gen.Prog) string {
 		}
 		for _, a := range e.A {
 			we(a)
+		}
+	}
+	// "copy-overwrite": x = y (a bare variable copied) in a program that also assigns y
+	assigned := map[string]bool{}
+	var copies []string
+	var wc func(ss []*gen.Stmt)
+	wc = func(ss []*gen.Stmt) {
+		for _, s := range ss {
+			if s.K == "assign" || s.K == "decl" {
+				if s.K == "assign" {
+					assigned[s.Name] = true
+				}
+				if s.E != nil && s.E.K == "var" {
+					copies = append(copies, s.E.S)
+				}
+			}
+			wc(s.Body)
+			wc(s.Else)
+			if s.ElseIf != nil {
+				wc([]*gen.Stmt{s.ElseIf})
+			}
+			for _, c := range s.Cases {
+				wc(c.Body)
+			}
+		}
+	}
+	wc(p.Body)
+	for _, src := range copies {
+		if assigned[src] {
+			t["copy-overwrite"] = true
 		}
 	}
 	counters := map[string]bool{}
